@@ -45,6 +45,8 @@ WALK_GEOMS = list(GEOMS.values()) + [
 FLOAT_GEOMS = WALK_GEOMS + [
     U.Geom("mps6m", "mps", [2, 3, 2, 3, 2, 3]), U.Geom("mpsc6", "mpsc", [2, 3, 2, 2, 3, 2]),
     U.Geom("peps23m", "peps", [2, 3, 2, 3, 2, 2], 2, 3), U.Geom("mpo5", "mpo", [2, 2, 3, 2, 2]),
+    # tensors with three bonds: the only inputs on which 'reduce-split' of a sandwich really takes its QR route
+    U.Geom("pepo23", "pepo", [2] * 6, 2, 3), U.Geom("pepo23", "pepo", [2] * 6, 2, 3),
 ]
 
 SINGLE = ("complex64", "float32")
